@@ -309,6 +309,8 @@ def _c06(tier, seed):
     # (d) free-running ThreadSanitizer pass: supporting evidence; a TSan report (exit 66) is attributed to the scenario in flight
     for be in (['nayuki-portable', 'fftw'] if tier == 'quick' else BE):
         jobs += J('c06_free.cpp', 'tsan', be, n=2, ldflags='-ldl', crash_is_violation=True, env={'TSAN_OPTIONS': 'halt_on_error=1:exitcode=66:report_signal_unsafe=0:second_deadlock_stack=1'})
+    # model + conformance: Promela model generated from the recorded protocol, Spin for 2..4 threads, model traces replayed on the implementation
+    jobs += [dict(harness='c06_spin.py', variant='optim', backend='fftw', needs_harness=[dict(harness='c06.cpp', variant='optim', backend='fftw', ldflags='-ldl')], timeout=(300 if tier == 'quick' else 3000))]
     if tier == 'thorough':
         for be in ['spqlios-fma', 'fftw', 'nayuki-portable']:
             jobs += J('c06.cpp', 'optim', be, n=5, args=['part=sched', 'threads=3', 'bound=2', 'tiny_n=1'], ldflags='-ldl', deadline=2400, timeout=3000)
